@@ -71,6 +71,7 @@ type eObs struct {
 	Late      int                    `json:"late"`      // events recorded AFTER the call had returned
 	ErrRules  []string               `json:"err_rules"` // the rule names the returned error mentions (taken from the full text)
 	Compile   string                 `json:"compile,omitempty"`
+	TagAfter  bool                   `json:"tag_after"` // the caller's stop tag when the call has returned
 }
 
 var errRuleRe = regexp.MustCompile(`rule:? "([^"]*)" executed`)
@@ -484,6 +485,7 @@ func runEngineCase(c *eCase) eObs {
 		obs.Late = last - atReturn
 	}
 	obs.Events = ob.snapshot()
+	obs.TagAfter = tag.StopTag
 	if obs.Events == nil {
 		obs.Events = [][2]string{}
 	}
